@@ -24,6 +24,9 @@ pub struct C19 {
     /// 0 = none, 1 = NFC, 2 = NFD, 3 = NFKC, 4 = NFKD
     pub normalization: u8,
     pub threads: Vec<u8>,
+    /// the output path already holds the (longer) table of an earlier training run
+    #[serde(default)]
+    pub stale_output: bool,
 }
 
 fn norm_of(n: u8) -> Option<Normalization> {
@@ -264,6 +267,7 @@ impl Scenario for C19 {
             max_lines_per_file: if rng.chance(0.25) { Some(rng.usize(0, 5)) } else { None },
             normalization: *rng.pick(&[0u8, 3, 3, 1, 2, 4]),
             threads: ts,
+            stale_output: rng.chance(0.3),
         }
     }
 
@@ -282,6 +286,11 @@ impl Scenario for C19 {
 
     fn shrink(&self) -> Vec<Self> {
         let mut v = vec![];
+        if self.stale_output {
+            let mut c = self.clone();
+            c.stale_output = false;
+            v.push(c);
+        }
         if self.files.len() > 1 {
             for i in 0..self.files.len() {
                 let mut c = self.clone();
@@ -403,6 +412,14 @@ impl Scenario for C19 {
                 spec = spec.replaying(traces.get(pi).cloned().unwrap_or_default(), *strict);
             }
             let out_file = dir.path(&format!("merges{pi}.bin"));
+            if self.stale_output {
+                let mut stale = MergeOps::new();
+                for i in 0..400u32 {
+                    stale.insert(format!("zq{i}").into_bytes(), 256 + i);
+                }
+                stale.save(&out_file).expect("write stale table");
+                stats.fault("output_path_holds_a_longer_table_of_an_earlier_run");
+            }
             let of2 = out_file.clone();
             let sc = self.clone();
             let paths2 = paths.clone();
